@@ -62,9 +62,13 @@ Definition conv_apply (defs : newtypes) (e : conv_kind * string * string) (x : Z
   | Some rr, Some (_, dmax) =>
       match k with
       | FromNN | FromNP | FromPN => Some (Some (wrap rr x))
-      | TryNN | TryPN | TrySPN =>
+      | TryNN | TryPN =>
           (* is_valid: 0 <= number && number <= max, compared in the source's primitive type *)
           if Z.leb 0 x && Z.leb x dmax then Some (Some (wrap rr x)) else Some None
+      | TrySPN =>
+          (* impl_try_from_signed_primitive_to_newtype: only negative values are rejected; the
+             macro relies on the source's non-negative range fitting into the newtype *)
+          if Z.leb 0 x then Some (Some (wrap rr x)) else Some None
       end
   | _, _ => None
   end.
